@@ -5,6 +5,61 @@ package build
 // Contracts for the deductive verifier in /verif (govc). Comments only; compiled solely with -tags verif.
 
 // ---------------------------------------------------------------------------------------------
+// Incrementality decisions (C01, C03)
+//
+// Within one decision the file system, the xattrs and the graph are fixed: the functions that read them are
+// (assumed) functions of their arguments. RuleHash's memoisation of target.RuleHash is abstracted away.
+//@ assume func readRuleHashFromXattrs
+//@   pure
+//@ assume func targetBuildMetadataFileName
+//@   pure
+//@ assume func RuleHash
+//@   pure
+//@ assume func sourceHash
+//@   pure
+//@ assume func secretHash
+//@   pure
+//
+// upToDate: the metadata exists, all four stored hashes equal the current ones (and could be computed), every
+// declared output exists and no rebuild is forced.
+//@ spec upToDate(state *core.BuildState, target *core.BuildTarget, postBuild bool) bool = \
+//@      fs.FileExists(targetBuildMetadataFileName(target)) && \
+//@      bytes.Equal(readRuleHashFromXattrs(state, target, postBuild).config, state.Hashes.Config) && \
+//@      bytes.Equal(readRuleHashFromXattrs(state, target, postBuild).rule, RuleHash(state, target, false, postBuild)) && \
+//@      second(sourceHash(state, target)) == nil && \
+//@      bytes.Equal(readRuleHashFromXattrs(state, target, postBuild).source, first(sourceHash(state, target))) && \
+//@      second(secretHash(state, target)) == nil && \
+//@      bytes.Equal(readRuleHashFromXattrs(state, target, postBuild).secret, first(secretHash(state, target))) && \
+//@      (forall i int :: 0 <= i && i < len(target.Outputs()) ==> core.PathExists(filepath.Join(target.OutDir(), target.Outputs()[i]))) && \
+//@      !state.ShouldRebuild(target)
+//
+// A target is skipped as up to date ONLY IF nothing it depends on changed (C01), and IF nothing changed it
+// is skipped (C03: a no-op build runs nothing).
+//@ func needsBuilding
+//@   requires state != nil && target != nil
+//@   modifies nothing
+//@   invariant "range target.Outputs()" exist: forall j int :: 0 <= j && j < idx ==> \
+//@      core.PathExists(filepath.Join(target.OutDir(), target.Outputs()[j]))
+//@   ensures skipped_only_if_up_to_date [C01]: !result ==> upToDate(state, target, postBuild)
+//@   ensures up_to_date_is_skipped [C03]: upToDate(state, target, postBuild) ==> !result
+//
+// moveOutput: an output is reported unchanged (and left alone) exactly when a file already exists at the
+// real location with the same hash as the new one; only then is nothing moved, removed or re-hashed.
+//@ spec sameAsExisting(state *core.BuildState, tmpOutput string, realOutput string) bool = fs.PathExists(realOutput) && \
+//@      second(state.PathHasher.Hash(tmpOutput, false, true, false)) == nil && \
+//@      second(state.PathHasher.Hash(realOutput, false, true, false)) == nil && \
+//@      bytes.Equal(first(state.PathHasher.Hash(realOutput, false, true, false)), first(state.PathHasher.Hash(tmpOutput, false, true, false)))
+//@ func moveOutput
+//@   requires state != nil && target != nil && state.PathHasher != nil
+//@   opt nopanic=off
+//@   ensures unchanged_only_if_same [C01 C03]: !result0 ==> result1 == nil && old(sameAsExisting(state, tmpOutput, realOutput))
+//@   ensures same_is_unchanged [C03]: old(sameAsExisting(state, tmpOutput, realOutput)) ==> !result0 && result1 == nil
+//@   callsite os.Rename only_if_changed [C03]: !old(sameAsExisting(state, tmpOutput, realOutput))
+//@   callsite fs.RemoveAll only_if_changed [C03]: !old(sameAsExisting(state, tmpOutput, realOutput)) && arg_path == realOutput
+//@   callsite fs.RecursiveCopy only_if_changed [C03]: !old(sameAsExisting(state, tmpOutput, realOutput))
+//@   callsite (PathHasher).MoveHash new_hash_follows_the_file [C03]: arg_oldPath == tmpOutput && arg_newPath == realOutput
+
+// ---------------------------------------------------------------------------------------------
 // Declared output hashes (C35)
 //
 // outputHash reads the file system; hashOf is its (uninterpreted) value for the current file-system
